@@ -39,10 +39,19 @@ BSPEC = [
     {'task': 'tb', 'name': 'b', 'kind': 'task', 'svs': {'s': ['v']}, 'refs': [('ta', 'a')]},
     {'task': 'tc', 'name': 'c', 'kind': 'analysis', 'svs': {'s': ['v']}, 'refs': [('tb', 'b')]},
 ]
+# same shape, but two algorithms of one task whose names are string prefixes of one another
+BSPEC2 = [
+    {'task': 'ta', 'name': 'a', 'kind': 'task', 'svs': {'s': ['v', 'w']}, 'refs': []},
+    {'task': 'ta', 'name': 'a2', 'kind': 'task', 'svs': {'s': ['v']}, 'refs': [('ta', 'a')]},
+    {'task': 'tc', 'name': 'c', 'kind': 'analysis', 'svs': {'s': ['v']}, 'refs': [('ta', 'a2')]},
+]
+_BB = {}
 _B = {}
 
 
-def _bsetup():
+def _bsetup(engine=0):
+    global _B
+    _B = _BB.setdefault(engine, {})
     if 'ae' not in _B:
         import dawgie.context
         import dawgie.db
@@ -52,7 +61,7 @@ def _bsetup():
         from vp.shims.schedworld import _graph
         from vp.shims.synthae import AE
 
-        _B['ae'] = AE(BSPEC)
+        _B['ae'] = AE(BSPEC if engine == 0 else BSPEC2)
         _B['w'] = shelveworld.world()
         _B['ver0'] = dict(_B['ae'].ver)
         _B['elements'] = sorted(_B['ae'].ver)  # ('alg', tag) / ('sv', ..) / ('v', ..)
@@ -69,7 +78,7 @@ def _owner(el):
     return '.'.join(el[1].split('.')[:2])
 
 
-def build_body(record_any, g1, g2, fin):
+def build_body(record_any, g1, g2, fin, engine=0):
     """generations: bump element g (or none) then persist every version through
     the real version.record; finally keep / bump / revert one element and run the
     real current/persistent/build"""
@@ -96,7 +105,7 @@ def build_body(record_any, g1, g2, fin):
     if f is None:
         return
     with rt.island():
-        ae, w = _bsetup()
+        ae, w = _bsetup(engine)
         w.reset()
         ae.ver.clear()
         ae.ver.update(_B['ver0'])
@@ -162,7 +171,7 @@ INFO = {
     'rule': 'one path = one feasible combination of branch outcomes in Version.__eq__/__ge__/__le__/__ne__/newer; '
     'every path is non-trivial (all 14 clauses are evaluated on it)',
     'functions': ['dawgie.Version.__eq__', '__ne__', '__lt__', '__le__', '__gt__', '__ge__', 'newer', 'pl.version.current', 'pl.version.record', 'pl.version.persistent', 'db.shelve.versions', 'db.shelve.update', 'pl.schedule._diff', 'pl.schedule.build'],
-    'bounds': {'quick': 'order: components all ints >= 0 (unbounded); build: engine of 3 algorithms (10 versioned elements), persisted history of 0-3 generations each bumping any one element, final keep / bump any element / revert any element', 'thorough': 'same (the space is exhausted in the quick tier)'},
+    'bounds': {'quick': 'order: components all ints >= 0 (unbounded); build: two engines of 3 algorithms (10 versioned elements each; in the second, two algorithms of one task have prefix-related names), persisted history of 0-3 generations each bumping any one element, final keep / bump any element / revert any element', 'thorough': 'same (the space is exhausted in the quick tier)'},
     'assumptions': ['version components are non-negative ints (documented contract of dawgie.Version)'],
     'outside': [],
 }
@@ -178,6 +187,9 @@ def obligations(tier):
     for g1 in range(11):
         out.append(ob.make(f'build-g{g1}', 'build', 'vp.harness.c15:build_body', 'g2: int, fin: int', ['0 <= g2 <= 10 and 0 <= fin <= 20'],
                            f"{{'record_any': True, 'g1': {g1}, 'g2': g2, 'fin': fin}}", timeout=900))
+    for g1 in range(11):
+        out.append(ob.make(f'build-prefixnames-g{g1}', 'build', 'vp.harness.c15:build_body', 'g2: int, fin: int', ['0 <= g2 <= 10 and 0 <= fin <= 20'],
+                           f"{{'record_any': True, 'g1': {g1}, 'g2': g2, 'fin': fin, 'engine': 1}}", timeout=900))
     out.append(ob.make('build-empty-db', 'build', 'vp.harness.c15:build_body', 'fin: int', ['0 <= fin <= 20'], "{'record_any': False, 'g1': 10, 'g2': 10, 'fin': fin}", timeout=300))
     out.append(ob.make('build', 'build', 'vp.harness.c15:build_body', 'g1: int, g2: int, fin: int', ['0 <= g1 <= 10 and 0 <= g2 <= 10 and 0 <= fin <= 20'],
                        "{'record_any': True, 'g1': g1, 'g2': g2, 'fin': fin}", timeout=300, twin=True))
